@@ -182,6 +182,32 @@ def coincidence(draw, tier):
             "twice": fam not in (0, 1, 2, 3, 5)}
 
 
+@st.composite
+def same_object(draw, tier):
+    """ONE Python object (a variable or a sub-proposition) listed twice among the children of a node, every other id of the
+    model distinct: x = variable('x'); All(x, x) / s = Any('a','b'); All(s, s, 'y') / Any(u, v, u)"""
+    if draw(st.booleans()):
+        sh = _leaf(draw(st.sampled_from(["x", "t", "ab"])), draw(st.sampled_from([(0, 1), (0, 1), (-1, 2)])))
+    else:
+        sh = {"k": draw(st.sampled_from(["Any", "All", "AtMost"])), "id": draw(st.sampled_from(["s", None])), "c": [_leaf("a"), _leaf("b")], "v": 1}
+        if sh["k"] != "AtMost":
+            sh.pop("v")
+    ref = {"k": "ref", "i": 0}
+    others = [_leaf(i) for i in ["y", "z", "w"][:draw(st.integers(0, 2))]]
+    twice = draw(st.integers(0, 3)) > 0
+    kids = list(draw(st.permutations([ref] + ([ref] if twice else []) + others)))
+    kind = draw(st.sampled_from(["All", "Any", "AtLeast", "AtMost"]))
+    node = {"k": kind, "id": draw(st.sampled_from(["N", None])), "c": kids}
+    if kind in ("AtLeast", "AtMost"):
+        node["v"] = draw(st.integers(1, 3))
+        if kind == "AtLeast":
+            node["s"] = draw(st.sampled_from([1, None]))
+    depth = draw(st.integers(0, 2))
+    for j in range(depth):
+        node = {"k": draw(st.sampled_from(["Any", "All", "Imply"])), "id": draw(st.sampled_from([None, "H%d" % j])), "c": [node, _leaf("u%d" % j)]}
+    return {"model": {"shared": [sh], "root": node}}
+
+
 def _resolve(spec):
     """explicit ids given as {"gen_of": node spec} become the generated id of that node"""
     spec = copy.deepcopy(spec)
@@ -312,6 +338,7 @@ def tree(draw, tier):
 def parts(tier):
     return [Part("class_twins", strategy=lambda t: S.class_twin_spec().map(lambda s_: {"model": s_}), check=check_complete, quick=(1, 300), thorough=(2, 3000)), Part("by_reference", strategy=lambda t: S.by_reference_spec().map(lambda s_: {"model": s_}), check=check_complete, quick=(1, 200), thorough=(2, 2000))] + [
         Part("adversarial", strategy=lambda t: adversarial(t), check=check_sound, quick=(6, 800), thorough=(12, 8000), fuzz=(2, 60000)),
+        Part("same_object", strategy=lambda t: same_object(t), check=check_sound, quick=(1, 300), thorough=(2, 3000)),
         Part("coincidence", strategy=lambda t: coincidence(t), check=check_coincidence, quick=(1, 400), thorough=(2, 4000)),
         Part("tree", strategy=lambda t: tree(t), check=check_complete, quick=(1, 600), thorough=(2, 4000)),
         Part("sharing", strategy=lambda t: S.model_spec(depth=3 if t == "quick" else 4, profile="small").map(lambda s: {"model": s}),
